@@ -13,7 +13,7 @@ shutil.copy(src+'/NOTES.md',dst+'/NOTES.md') if notes else None
 confirm=open(src+'/confirm.log').read().strip().splitlines()[-1] if os.path.exists(src+'/confirm.log') else 'not confirmed'
 caught={}
 for p in [prop]+extra:
-    out=subprocess.run(['/verif/scripts/try_patch.sh',dst+'/patch.diff',p],capture_output=True,text=True,env=dict(os.environ,LINES_MAX='40',WIDTH='300')).stdout
+    out=subprocess.run(['/verif/scripts/try_patch.sh',dst+'/patch.diff',p],capture_output=True,text=True,errors='replace',env=dict(os.environ,LINES_MAX='40',WIDTH='300')).stdout
     rules=sorted(set(re.findall(r': (C\d+\.\d+|RT\.\d+)(?: \(undecided\))?:',out)))
     rc=re.search(r'exit=(\d)',out)
     caught[p]={'exit':int(rc.group(1)) if rc else None,'rules':rules}
